@@ -396,7 +396,11 @@ func (j *caseJudge) judge(in *inst, c *ecase, t *term) {
 			k = "determinism"
 		}
 		r := replay().(map[string]any)
-		r["equal_term"] = json.RawMessage(prevT)
+		if json.Valid([]byte(prevT)) {
+			r["equal_term"] = json.RawMessage(prevT)
+		} else {
+			r["equal_term"] = prevT
+		}
 		r["its_value"] = hex.EncodeToString(prev)
 		j.violate(k, cls, "two terms the algebra makes equal evaluate to different values", r)
 		return
